@@ -13,4 +13,9 @@ INVARIANT BlockLen
 INVARIANT FreshSignature
 INVARIANT ParsedIsBuilt
 INVARIANT ReadIsCurrent
+INVARIANT HistoryFree
+INVARIANT LastWriteWins
+INVARIANT TargetReached
+INVARIANT CertPoints
+INVARIANT PfrBack
 CHECK_DEADLOCK FALSE
